@@ -346,6 +346,13 @@ class PartialSchemas(PartialFactory):
             if k not in obj.__constants__
         )
 
+    # override: handles of unspecified version are throw-away subclasses of the
+    # real schema -> use the partial of the real schema class (and not a sibling of it)
+    @classmethod
+    def get_partial(cls, mcls, *, typehints=None):
+        mcls = UndefVersion._unwrap(mcls) or mcls
+        return super().get_partial(mcls, typehints=typehints)
+
     # override to add some fixes to partials
     @classmethod
     def _create_partial(cls, mcls, *, typehints=...):
